@@ -1,34 +1,84 @@
 #!/usr/bin/env python3
-"""seeded.py run <id> [--tier quick]   apply /verif/seeded/<id>/patch.diff to /repo, run the owning check(s), revert.
-   seeded.py all                       run every seeded change, print a detection table."""
-import json, os, subprocess, sys, time
+"""seeded.py run <id> [--tier quick] [--inplace]
+       apply /verif/seeded/<id>/patch.diff, run the owning check(s), undo.
+       default: the patch is applied to a scratch worktree of /repo (under /tmp, removed afterwards) and the checks run with
+       VERIF_REPO pointing at it, so /repo itself is never modified and other work is not disturbed;
+       --inplace: git -C /repo apply, run, git -C /repo checkout -- .   (the two are equivalent for the checks: every check
+       builds only from the tree VERIF_REPO names)
+   seeded.py all [--jobs N]            run every seeded change, print a detection table (JSON to seeded/RESULTS.json)."""
+import json, os, subprocess, sys, time, shutil
+from concurrent.futures import ThreadPoolExecutor
+import threading
 VERIF = os.path.dirname(os.path.dirname(os.path.abspath(__file__)))
+_prop_locks = {}
+_pl = threading.Lock()
 
 
-def run_one(sid, tier="quick"):
-    d = os.path.join(VERIF, "seeded", sid)
-    meta = json.load(open(os.path.join(d, "meta.json")))
-    patch = os.path.join(d, "patch.diff")
-    st = subprocess.run(["git", "-C", "/repo", "status", "--porcelain", "--untracked-files=no"], capture_output=True, text=True).stdout.strip()
-    if st:
-        print("refusing: /repo has local modifications:\n" + st); return None
+def prop_lock(p):
+    with _pl:
+        return _prop_locks.setdefault(p, threading.Lock())
+
+
+def run_checks(meta, tier, env):
     res = {}
-    try:
-        subprocess.run(["git", "-C", "/repo", "apply", patch], check=True)
-        for prop in meta.get("checks", [meta["property"]]):
+    for prop in meta.get("checks", [meta["property"]]):
+        with prop_lock(prop):
             t = time.time()
-            p = subprocess.run([sys.executable, os.path.join(VERIF, "tools/check.py"), prop, "--tier", tier], capture_output=True, text=True, cwd=VERIF)
+            p = subprocess.run([sys.executable, os.path.join(VERIF, "tools/check.py"), prop, "--tier", tier],
+                               capture_output=True, text=True, cwd=VERIF, env=env)
             viol = [l for l in p.stdout.split("\n") if l.startswith("VIOLATION")]
             res[prop] = {"rc": p.returncode, "violations": viol[:3], "wall_s": round(time.time() - t, 1)}
-    finally:
-        subprocess.run(["git", "-C", "/repo", "checkout", "--", "."], check=True)
     return res
 
 
+def run_one(sid, tier="quick", inplace=False):
+    d = os.path.join(VERIF, "seeded", sid)
+    meta = json.load(open(os.path.join(d, "meta.json")))
+    patch = os.path.join(d, "patch.diff")
+    if inplace:
+        st = subprocess.run(["git", "-C", "/repo", "status", "--porcelain", "--untracked-files=no"], capture_output=True, text=True).stdout.strip()
+        if st:
+            print("refusing: /repo has local modifications:\n" + st); return None
+        try:
+            subprocess.run(["git", "-C", "/repo", "apply", patch], check=True)
+            return run_checks(meta, tier, dict(os.environ))
+        finally:
+            subprocess.run(["git", "-C", "/repo", "checkout", "--", "."], check=True)
+    wt = "/tmp/seedrun_" + sid
+    subprocess.run(["git", "-C", "/repo", "worktree", "remove", "--force", wt], capture_output=True)
+    shutil.rmtree(wt, ignore_errors=True)
+    subprocess.run(["git", "-C", "/repo", "worktree", "add", "-f", "--detach", wt, "HEAD"], check=True, capture_output=True)
+    try:
+        subprocess.run(["git", "-C", wt, "apply", patch], check=True)
+        env = dict(os.environ); env["VERIF_REPO"] = wt; env["VERIF_EVID"] = wt + "_evid"
+        return run_checks(meta, tier, env)
+    finally:
+        subprocess.run(["git", "-C", "/repo", "worktree", "remove", "--force", wt], capture_output=True)
+        shutil.rmtree(wt, ignore_errors=True); shutil.rmtree(wt + "_evid", ignore_errors=True)
+        # put the source-derived Lean data back to what /repo says (the run regenerated it from the scratch tree)
+        subprocess.run([sys.executable, "-c", "import sys; sys.path.insert(0, %r); import vlib, gen_consts; lk = vlib._lock(); gen_consts.regenerate(); lk.close()"
+                        % os.path.join(VERIF, "tools")], env={k: v for k, v in os.environ.items() if k != "VERIF_REPO"})
+
+
+def verdict(r):
+    return {k: ("DETECTED" if v["rc"] == 1 and v["violations"] else "missed rc=%d" % v["rc"]) for k, v in (r or {}).items()}
+
+
 if __name__ == "__main__":
-    if sys.argv[1] == "run":
-        print(json.dumps(run_one(sys.argv[2], sys.argv[4] if len(sys.argv) > 4 else "quick"), indent=1))
+    a = sys.argv[1:]
+    if a[0] == "run":
+        tier = a[a.index("--tier") + 1] if "--tier" in a else "quick"
+        r = run_one(a[1], tier, "--inplace" in a)
+        print(json.dumps(r, indent=1)); print(a[1], verdict(r))
     else:
-        for sid in sorted(os.listdir(os.path.join(VERIF, "seeded"))):
+        jobs = int(a[a.index("--jobs") + 1]) if "--jobs" in a else 3
+        ids = sorted(os.listdir(os.path.join(VERIF, "seeded")))
+        ids = [i for i in ids if os.path.isdir(os.path.join(VERIF, "seeded", i))]
+        out = {}
+        def one(sid):
             r = run_one(sid)
-            print(sid, {k: ("DETECTED" if v["rc"] == 1 and v["violations"] else "missed rc=%d" % v["rc"]) for k, v in (r or {}).items()})
+            out[sid] = r
+            print(sid, verdict(r), flush=True)
+        with ThreadPoolExecutor(jobs) as ex:
+            list(ex.map(one, ids))
+        json.dump({k: out[k] for k in sorted(out)}, open(os.path.join(VERIF, "seeded", "RESULTS.json"), "w"), indent=1)
